@@ -7,8 +7,10 @@ cd "$(dirname "$0")"
 export CARGO_NET_OFFLINE=true CARGO_TERM_COLOR=never
 mkdir -p .build/gen evidence
 cp /repo/Cargo.lock replay/Cargo.lock
-(cd replay && cargo build --offline --target-dir ../.build/replay-target 2>&1 | tail -1 && cargo build --release --offline --target-dir ../.build/replay-target 2>&1 | tail -1)
+# the fixture generator first: scenarios/c14.rs includes the file it writes
+(cd replay && cargo build --offline --target-dir ../.build/replay-target --bin vfixtures 2>&1 | tail -1)
 .build/replay-target/debug/vfixtures > .build/gen/fixtures.rs
+(cd replay && cargo build --offline --target-dir ../.build/replay-target 2>&1 | tail -1 && cargo build --release --offline --target-dir ../.build/replay-target 2>&1 | tail -1)
 python3 stage/stage.py /repo .build/stage/repo >/dev/null
 cp /repo/Cargo.lock kani/Cargo.lock
 (cd kani && cargo kani -Z stubbing -Z unstable-options --only-codegen --harness scenarios::c07_twin --exact --target-dir ../.build/target-base 2>&1 | tail -1)
